@@ -177,11 +177,12 @@ theorem padded_error_report (ks : List Nat) (srcs : List Str) (h : ks.length = s
 /-- the number of newlines `get_line_number_corrected_source` puts in front of a block found at `pos`: the lines
     before the line of `pos`, and the fence line of a fenced block -/
 def mdPadding (md : Str) (pos : Nat) (fenced : Bool) : Nat :=
-  (offsetToLineCol (normaliseCrLf md) pos).1 - 1 + (if fenced then 1 else 0)
+  (offsetToLineCol (crToLf (normaliseCrLf md)) pos).1 - 1 + (if fenced then 1 else 0)
 
+/-- the text of a block as it is compiled: a carriage return of its own is a line feed -/
 theorem paddedSource_is_pad (md : Str) (pos : Nat) (fenced : Bool) (src : Str) :
     paddedSource md pos fenced src =
-      pad ((offsetToLineCol (normaliseCrLf md) pos).1 - 1 + (if fenced then 1 else 0)) src := rfl
+      pad ((offsetToLineCol (crToLf (normaliseCrLf md)) pos).1 - 1 + (if fenced then 1 else 0)) (crToLf src) := rfl
 
 theorem zipWith_pad_map {α : Type} (f : α → Nat) (g : α → Str) (l : List α) :
     List.zipWith pad (l.map f) (l.map g) = l.map fun x => pad (f x) (g x) := by
@@ -196,7 +197,7 @@ def mdSources (md : Str) (blocks : List (Nat × Bool × Str)) : List Str :=
 /-- the result for a Markdown document is the result for its block texts (C13.2) … -/
 theorem markdown_compile (md : Str) (blocks : List (Nat × Bool × Str)) :
     compile (mdSources md blocks) =
-      shiftResult (blocks.map fun x => mdPadding md x.1 x.2.1) (compile (blocks.map (·.2.2))) := by
+      shiftResult (blocks.map fun x => mdPadding md x.1 x.2.1) (compile (blocks.map fun x => crToLf x.2.2)) := by
   rw [← C13.compile_pad _ _ (by simp), zipWith_pad_map]
   rfl
 
@@ -204,19 +205,20 @@ theorem markdown_compile (md : Str) (blocks : List (Nat × Bool × Str)) :
     `l + mdPadding …` — with `H_marko` (`pos` lies on the block's first code line, resp. on its opening fence line)
     that is the document line of the offending token — at the same column, quoting the same text. -/
 theorem markdown_error_line (md : Str) (blocks : List (Nat × Bool × Str)) (b off : Nat)
-    (hc : compile (blocks.map (·.2.2)) = .redefined b off ∨ compile (blocks.map (·.2.2)) = .proportion b off) :
+    (hc : compile (blocks.map fun x => crToLf x.2.2) = .redefined b off ∨
+          compile (blocks.map fun x => crToLf x.2.2) = .proportion b off) :
     ∃ pos fenced src, blocks[b]? = some (pos, fenced, src) ∧
       (mdSources md blocks)[b]? = some (paddedSource md pos fenced src) ∧
-      (compile (blocks.map (·.2.2)) = .redefined b off →
+      (compile (blocks.map fun x => crToLf x.2.2) = .redefined b off →
         compile (mdSources md blocks) = .redefined b (off + mdPadding md pos fenced)) ∧
-      (compile (blocks.map (·.2.2)) = .proportion b off →
+      (compile (blocks.map fun x => crToLf x.2.2) = .proportion b off →
         compile (mdSources md blocks) = .proportion b (off + mdPadding md pos fenced)) ∧
       offsetToLineCol (paddedSource md pos fenced src) (off + mdPadding md pos fenced) =
-        ((offsetToLineCol src off).1 + mdPadding md pos fenced, (offsetToLineCol src off).2) ∧
-      extractLine (paddedSource md pos fenced src) ((offsetToLineCol src off).1 + mdPadding md pos fenced) =
-        extractLine src (offsetToLineCol src off).1 := by
+        ((offsetToLineCol (crToLf src) off).1 + mdPadding md pos fenced, (offsetToLineCol (crToLf src) off).2) ∧
+      extractLine (paddedSource md pos fenced src) ((offsetToLineCol (crToLf src) off).1 + mdPadding md pos fenced) =
+        extractLine (crToLf src) (offsetToLineCol (crToLf src) off).1 := by
   obtain ⟨s, k, hs, hk, hps, h1, h2, h3, h4⟩ :=
-    padded_error_line (blocks.map fun x => mdPadding md x.1 x.2.1) (blocks.map (·.2.2)) (by simp) b off hc
+    padded_error_line (blocks.map fun x => mdPadding md x.1 x.2.1) (blocks.map fun x => crToLf x.2.2) (by simp) b off hc
   rw [List.getElem?_map] at hs hk
   cases hb : blocks[b]? with
   | none => rw [hb] at hs; cases hs
